@@ -48,7 +48,13 @@ Progs == <<
     Let("f", FnLit(<<"p", "q">>, <<Ret(Bin("+", Id("p"), Id("q")))>>)), Emit(Call("f", <<IntL(1), Call("len", <<Id("xs")>>)>>)), Emit(Call("f", <<Idx(Id("xs"), IntL(0)), Idx(Id("xs"), IntL(2))>>))>>,
   \* 12 member access after an index, with the member's name also used as a variable of its own (same line in the canonical layout)
   <<Let("Name", Dot(Idx(Id("team"), IntL(0)), "Name")), Emit(Id("Name")), Text(<<"|">>), Emit(Dot(Idx(Id("team"), IntL(1)), "Name")), Let("i", IntL(0)),
-    Emit(Dot(Idx(Id("team"), Id("i")), "Name")), Emit(Id("Name")), Text(<<"|">>), Emit(Dot(Id("lead"), "Name")), Emit(Id("Name"))>>
+    Emit(Dot(Idx(Id("team"), Id("i")), "Name")), Emit(Id("Name")), Text(<<"|">>), Emit(Dot(Id("lead"), "Name")), Emit(Id("Name"))>>,
+  \* 13 if chains whose LAST arm is an else-if (no else), followed by statements; in loop and function bodies; comparisons <= >=
+  <<Let("n", IntL(5)), Let("t", IntL(0)), Code(IfChain(Bin("<=", Id("n"), IntL(1)), <<Code(Assign("t", IntL(1)))>>, <<[c |-> Bin(">=", Id("n"), IntL(5)), b |-> <<Code(Assign("t", IntL(2)))>>]>>, <<>>, FALSE)),
+    Code(Assign("t", Bin("+", Id("t"), IntL(10)))), Emit(Id("t")),
+    Emit(For("", "v", Arr(<<IntL(1), IntL(7)>>), <<Code(IfChain(Bin("<=", Id("v"), IntL(0)), <<Let("a", IntL(1))>>, <<[c |-> Bin(">=", Id("v"), IntL(7)), b |-> <<Let("a", IntL(2))>>], [c |-> Bin("<=", Id("v"), IntL(1)), b |-> <<Let("a", IntL(3))>>]>>, <<>>, FALSE)), Emit(Id("a")), Text(<<",">>)>>)),
+    Let("k", FnLit(<<"x">>, <<Let("m", IntL(0)), Code(IfChain(Bin(">=", Id("x"), IntL(9)), <<Code(Assign("m", IntL(7)))>>, <<[c |-> Bin("<=", Id("x"), IntL(3)), b |-> <<Code(Assign("m", IntL(8)))>>]>>, <<>>, FALSE)), Ret(Id("m"))>>)),
+    Emit(Call("k", <<IntL(9)>>)), Emit(Call("k", <<IntL(2)>>)), Emit(Call("k", <<IntL(5)>>))>>
 >>
 Data == [team |-> A(<<Rec([Name |-> S(<<"A", "n", "n">>)]), Rec([Name |-> S(<<"B", "o">>)])>>), lead |-> Rec([Name |-> S(<<"L">>)])]
 Parts == [p |-> <<Text(<<"{">>), Emit(Id("d")), Text(<<"}">>)>>]
@@ -59,6 +65,8 @@ SepAlts == {"sp", "tab", "nl", "crlf", "sp2", "cmt", "cmt2", "cmt3"}
 GapAlts == {"none", "sp", "tab", "nl", "crlf", "cmt", "cmt2"}     \* white space inserted between two adjacent tokens
 Punct == {"(", ")", "[", "]", ",", ":", "LBR", "RBR", "{", "}"}
 EdgeAlts == SepAlts \cup {"none"}                      \* next to a tag delimiter the separator may vanish
+\* ... and next to an operator (other than -, which glues to names and numbers)
+OpTokens == {"+", "*", "/", "<", "<=", ">", ">=", "==", "!=", "~=", "&&", "||", "="}
 JoinAlts == {"keep", "nl", "semi", "sp"}
 Sep(a) == CASE a = "sp" -> <<" ">> [] a = "tab" -> <<"TAB">> [] a = "nl" -> <<"NL">> [] a = "crlf" -> <<"CR", "NL">> [] a = "sp2" -> <<" ", " ">>
             [] a = "cmt" -> <<" ", "HASH", " ", "n", "o", "t", "e", "NL">> [] a = "none" -> <<>>
@@ -77,7 +85,8 @@ Kinds(ts) ==
       \* inside a string literal: an odd number of quote tokens since the tag opened
       quotes(i) == Cardinality({j \in 1..i : ts[j] \in {"QUOT", "BQ"} /\ \A k \in j..i : ts[k] \notin Openers})
   IN [i \in 1..Len(ts) |->
-        IF ts[i] = " " /\ inside[i] THEN (IF ts[i-1] \in Openers \/ (i < Len(ts) /\ ts[i+1] = "%>") THEN "edge" ELSE "sep")
+        IF ts[i] = " " /\ inside[i] THEN (IF ts[i-1] \in Openers \/ (i < Len(ts) /\ ts[i+1] = "%>") THEN "edge"
+                                         ELSE IF quotes(i) % 2 = 0 /\ (ts[i-1] \in OpTokens \/ (i < Len(ts) /\ ts[i+1] \in OpTokens)) THEN "opsep" ELSE "sep")
         ELSE IF ts[i] = "%>" /\ i < Len(ts) /\ ts[i+1] = "<%" /\ opener(i) = "<%" THEN "join"
         ELSE IF ts[i] = "%>" THEN "end"
         \* a gap: this token and the next one are adjacent (no separator), one of them is punctuation, not inside a string;
@@ -90,8 +99,8 @@ Kinds(ts) ==
 VARIABLES pi, lay, pos, done,     \* program index, layout chosen so far (function position -> alternative), next position
           Toks, KS, nchanged     \* canonical tokens and their position kinds (computed once), number of non-canonical choices
 vars == <<pi, lay, pos, done, Toks, KS, nchanged>>
-Canon(k) == CASE k = "sep" -> "sp" [] k = "edge" -> "sp" [] k = "join" -> "keep" [] k = "end" -> "plain" [] k = "gap" -> "none" [] OTHER -> ""
-AltsOf(k) == CASE k = "sep" -> SepAlts [] k = "edge" -> EdgeAlts [] k = "join" -> JoinAlts [] k = "end" -> {"plain", "comment"} [] k = "gap" -> GapAlts [] OTHER -> {""}
+Canon(k) == CASE k = "sep" -> "sp" [] k = "opsep" -> "sp" [] k = "edge" -> "sp" [] k = "join" -> "keep" [] k = "end" -> "plain" [] k = "gap" -> "none" [] OTHER -> ""
+AltsOf(k) == CASE k = "sep" -> SepAlts [] k = "opsep" -> EdgeAlts [] k = "edge" -> EdgeAlts [] k = "join" -> JoinAlts [] k = "end" -> {"plain", "comment"} [] k = "gap" -> GapAlts [] OTHER -> {""}
 Changed == nchanged
 
 Init == /\ pi \in 1..Len(Progs) /\ lay = <<>> /\ pos = 1 /\ done = FALSE /\ nchanged = 0
@@ -111,7 +120,7 @@ Spec == Init /\ [][Choose \/ Finish]_vars
 RECURSIVE Apply(_, _, _, _)
 Apply(ts, ks, l, i) ==
   IF i > Len(ts) THEN <<>>
-  ELSE CASE ks[i] \in {"sep", "edge"} -> Sep(l[i]) \o Apply(ts, ks, l, i + 1)
+  ELSE CASE ks[i] \in {"sep", "edge", "opsep"} -> Sep(l[i]) \o Apply(ts, ks, l, i + 1)
          [] ks[i] = "join" -> IF l[i] = "keep" THEN <<ts[i]>> \o Apply(ts, ks, l, i + 1)
                               ELSE Join(l[i]) \o Apply(ts, ks, l, i + 3)          \* drops `%>`, `<%` and the space after it
          [] ks[i] = "end"  -> <<ts[i]>> \o (IF l[i] = "comment" THEN CommentTag ELSE <<>>) \o Apply(ts, ks, l, i + 1)
